@@ -378,9 +378,27 @@ pub(crate) fn define_argument_inner(s: Span) -> IResult<Span, Span> {
 
 #[tracable_parser]
 pub(crate) fn define_argument_str(s: Span) -> IResult<Span, Span> {
-    let (s, (a, b, c)) = triple(tag("\""), opt(is_not("\"")), tag("\""))(s)?;
-    let a = if let Some(b) = b {
-        concat(concat(a, b).unwrap(), c).unwrap()
+    let (s, a) = tag("\"")(s)?;
+    let (s, b) = many0(alt((
+        is_not("\\\""),
+        map(pair(tag("\\"), take(1usize)), |(x, y)| {
+            concat(x, y).unwrap()
+        }),
+    )))(s)?;
+    let (s, c) = tag("\"")(s)?;
+
+    let mut ret = None;
+    for x in b {
+        ret = if let Some(ret) = ret {
+            Some(concat(ret, x).unwrap())
+        } else {
+            Some(x)
+        };
+    }
+
+    let a = if let Some(b) = ret {
+        let a = concat(a, b).unwrap();
+        concat(a, c).unwrap()
     } else {
         concat(a, c).unwrap()
     };
